@@ -737,6 +737,10 @@ class FunctionDefinition(TypedExpression):
             base_indent=base_indent,
             line_break=line_break,
         )
+        if not line_break and output_str.startswith("\n"):
+            # The body brings its own line break (it inherited the blank line
+            # of a removed `let … in`): no space is left behind the colon.
+            split = split.rstrip(" ")
         core = f"{args_str}{split}{output_str}"
         return self.add_trivia(core, indent=base_indent, inline=inline)
 
